@@ -12,6 +12,7 @@ import (
 	"time"
 
 	"github.com/pion/interceptor"
+	"github.com/pion/interceptor/pkg/cc"
 	"github.com/pion/interceptor/pkg/gcc"
 	"github.com/pion/interceptor/pkg/pacing"
 	"github.com/pion/interceptor/verifh/hk"
@@ -59,6 +60,7 @@ type system struct {
 	api      pacerAPI
 	accepted [3][]sentPkt
 	seq      [3]uint16
+	tseq     uint16 // transport-wide number (cc-leaky, stream 1)
 	closed   bool
 	t0       int64
 	// rate schedule for the token bucket bound
@@ -114,6 +116,30 @@ func newSystem(c config) (*system, error) {
 			write:   func(st int, h *rtp.Header, pl []byte) (int, error) { return p.Write(h, pl, nil) },
 			setRate: p.SetTargetBitrate,
 			close:   p.Close}
+	case "cc-leaky":
+		// the leaky bucket pacer as it is used in practice: inside gcc.SendSideBWE behind the cc interceptor;
+		// stream 1 negotiated transport-cc (bound first), stream 2 negotiated nothing
+		p := gcc.NewLeakyBucketPacer(c.Rate)
+		f, err := cc.NewInterceptor(func() (cc.BandwidthEstimator, error) {
+			return gcc.NewSendSideBWE(gcc.SendSideBWEInitialBitrate(c.Rate), gcc.SendSideBWEPacer(p))
+		})
+		if err != nil {
+			return nil, err
+		}
+		i, err := f.NewInterceptor("pc")
+		if err != nil {
+			return nil, err
+		}
+		s := hk.NewSession(nil, nil)
+		s.T = sys.t
+		w := map[int]interceptor.RTPWriter{}
+		w[1] = i.BindLocalStream(&interceptor.StreamInfo{SSRC: ssrc(1), RTCPFeedback: []interceptor.RTCPFeedback{{Type: "transport-cc"}},
+			RTPHeaderExtensions: []interceptor.RTPHeaderExtension{{URI: hk.TransportCCURI, ID: hk.TwccExtID}}}, s.SinkFor(1))
+		w[2] = i.BindLocalStream(&interceptor.StreamInfo{SSRC: ssrc(2)}, s.SinkFor(2))
+		sys.api = pacerAPI{icpt: i,
+			write:   func(st int, h *rtp.Header, pl []byte) (int, error) { return w[st].Write(h, pl, nil) },
+			setRate: p.SetTargetBitrate,
+			close:   i.Close}
 	default:
 		return nil, fmt.Errorf("unknown pacer %q", c.Pacer)
 	}
@@ -137,6 +163,10 @@ func (sys *system) write(stream, size int) error {
 	if size == 1 {
 		h.Extension, h.ExtensionProfile = true, 0xBEDE
 		_ = h.SetExtension(1, []byte{byte(q), 0x5A, 0xA5})
+	}
+	if sys.c.Pacer == "cc-leaky" && stream == 1 {
+		sys.tseq++
+		_ = h.SetExtension(hk.TwccExtID, []byte{byte(sys.tseq >> 8), byte(sys.tseq)})
 	}
 	p := make([]byte, sizes[size][0])
 	for i := range p {
@@ -412,6 +442,7 @@ func configs(tier string) []config {
 	out = append(out, config{Pacer: "leaky-bucket", Interval: 5, Rate: 1_000_000, Depth: d})
 	out = append(out, config{Pacer: "leaky-bucket", Interval: 5, Rate: 100_000, Depth: d})
 	out = append(out, config{Pacer: "noop", Interval: 5, Rate: 1_000_000, Depth: d - 1})
+	out = append(out, config{Pacer: "cc-leaky", Interval: 5, Rate: 1_000_000, Depth: d - 1})
 	// shard every configuration by the first symbol of the history
 	var sharded []config
 	for _, c := range out {
